@@ -7,6 +7,7 @@ CONSTANTS
   MULT = 5
   BLOCKGAS = 250
   GATEWAY = "gw"
+  FIX <- c_FIX
   DEVS = {}
   SENDERS = {"a1", "a2"}
   TARGETS = {"a2", "c", "pre", "w", "new", "newp"}
@@ -15,18 +16,19 @@ CONSTANTS
   PCS_X = {"below"}
   TIPS_N = {"one"}
   TIPS_X = {}
-  GLS_N = {"intr", "big"}
+  GLS_N = {"fit", "big"}
   GLS_X = {}
   VCS_N = {"zero", "one"}
   VCS_X = {"split"}
   NCS_X = {"ahead"}
-  MAXEXC = 1
-  MAXTX = 3
+  MAXEXC = 2
+  MAXTX = 2
   MAXBLOCKS = 1
-  MAXOPS = 4
+  MAXOPS = 3
   GENBAL = 1000
   BFS = {2}
   BATCH = "first"
+  WCS = {"zero", "same", "new"}
   OPS = {"dep", "dlg"}
   GEN = FALSE
 VIEW View
